@@ -28,7 +28,7 @@ func (t *Target) AccessDeniedHTTP(r *http.Request) bool {
 		return false
 	}
 
-	ip := net.ParseIP(host)
+	ip := parseIP(host)
 	if ip == nil {
 		log.Printf("[WARN] failed to parse remote address %s", host)
 	}
@@ -53,7 +53,7 @@ func (t *Target) AccessDeniedHTTP(r *http.Request) bool {
 			if xip == host {
 				continue
 			}
-			if ip = net.ParseIP(xip); ip == nil {
+			if ip = parseIP(xip); ip == nil {
 				log.Printf("[WARN] failed to parse xff address %s", xip)
 				continue
 			}
@@ -65,6 +65,15 @@ func (t *Target) AccessDeniedHTTP(r *http.Request) bool {
 
 	// default allow
 	return false
+}
+
+// parseIP parses an IP address like net.ParseIP but accepts an IPv6 zone
+// ("fe80::1%eth0"), which is ignored: access rules are about addresses.
+func parseIP(s string) net.IP {
+	if i := strings.IndexByte(s, '%'); i >= 0 {
+		s = s[:i]
+	}
+	return net.ParseIP(s)
 }
 
 // AccessDeniedTCP checks rules on the target for TCP proxy routes.
